@@ -1447,7 +1447,7 @@ impl Reader {
 } // impl Reader
 
 // Verification hook: read-only view of the matched set.
-#[cfg(rustdds_verif)]
+#[cfg(all(rustdds_verif, any(not(rustdds_verif_only), rustdds_verif_c11)))]
 impl Reader {
   pub(crate) fn verif_matched_writers(&self) -> Vec<GUID> {
     self.matched_writers.keys().copied().collect()
@@ -1455,7 +1455,7 @@ impl Reader {
 }
 
 // Verification hook: read-only views of a writer proxy and of the fragment assembler of a writer.
-#[cfg(rustdds_verif)]
+#[cfg(all(rustdds_verif, any(not(rustdds_verif_only), rustdds_verif_c01, rustdds_verif_c03)))]
 impl Reader {
   pub(crate) fn verif_writer_proxy_view(&self, writer: GUID) -> Option<(i64, Vec<i64>, i32, i32)> {
     self.matched_writers.get(&writer).map(|wp| wp.verif_view())
@@ -1467,7 +1467,7 @@ impl Reader {
 }
 
 // Verification hook: the count of the last HEARTBEAT processed for a matched writer.
-#[cfg(rustdds_verif)]
+#[cfg(all(rustdds_verif, any(not(rustdds_verif_only), rustdds_verif_c17)))]
 impl Reader {
   pub(crate) fn verif_received_heartbeat_count(&self, writer_guid: GUID) -> Option<i32> {
     self
@@ -1478,7 +1478,7 @@ impl Reader {
 }
 
 // Verification hook: read-only views of a writer proxy and of the fragment assemblers.
-#[cfg(rustdds_verif)]
+#[cfg(all(rustdds_verif, any(not(rustdds_verif_only), rustdds_verif_c06)))]
 impl Reader {
   pub(crate) fn verif_writer_proxy_digest(&self, writer: GUID) -> Option<(i64, Vec<i64>, i32)> {
     self
@@ -2045,7 +2045,7 @@ mod tests {
 }
 
 // Verification hooks (C02): read-only views of one writer proxy and its fragment assembler.
-#[cfg(rustdds_verif)]
+#[cfg(all(rustdds_verif, any(not(rustdds_verif_only), rustdds_verif_c02)))]
 impl Reader {
   pub(crate) fn verif_c02_writer_proxy(&self, writer: GUID) -> Option<&RtpsWriterProxy> {
     self.matched_writers.get(&writer)
@@ -2061,7 +2061,7 @@ impl Reader {
 
 // Verification hook (C02): run the fragment garbage collection as if every assembly buffer had
 // timed out (FragmentAssembler::garbage_collect_before with a limit in the future).
-#[cfg(rustdds_verif)]
+#[cfg(all(rustdds_verif, any(not(rustdds_verif_only), rustdds_verif_c02)))]
 impl Reader {
   pub(crate) fn verif_c02_gc_fragments(&mut self) {
     let expire_before = Timestamp::now() + Duration::from_secs(3600);
